@@ -143,6 +143,13 @@ def _run(ctx):
         okw = okw and bool(fix) and all(rf.can_reach(x[0], full[0].bb, avoid=heads) for x in fix)
     ctx.ob("R-ORDER", "zero-page-fixup-walks-all-children", okw, "in the top-level pass every non-empty child list is walked, whatever the item's own page is", rf.where(),
            what="adjust_zero_pages' top-level walk into an item's children is now conditional on the item's page state: nested zero-page parents to the right of the first paged child keep page (0, 0) and drop out of the table of contents")
+    # only a bookmark WITHOUT a page of its own is given one: every store to Bookmark.page is dominated by `page.0 == 0`
+    for x in lib.stores_to_field(rf, "page", "Bookmark"):
+        gs = inv.rendered_guards(rf, x[0])
+        okz = any((re.match(r"^Eq\((0,[\w.*]+\.0|[\w.*]+\.0,0)\)$", g) and tr) or (re.match(r"^Ne\((0,[\w.*]+\.0|[\w.*]+\.0,0)\)$", g) and not tr) for g, tr in gs)
+        ctx.ob("R-GUARD", "page-overwritten-only-when-zero", okz, "the store to Bookmark.page is dominated by the test that the bookmark's page number is 0", rf.where(x[2]["ln"]),
+               what="recursive_fix_pages can overwrite the page of a bookmark that has a page of its own (the store to Bookmark.page is not dominated by `page.0 == 0`; dominating tests: %s): a parent bookmark loses its destination to its first descendant's"
+                    % [("" if tr else "!") + g for g, tr in gs])
     stp = [rf.rvname(s[2]["rv"], 3) for s in lib.stores_to_field(rf, "page", "Bookmark") if s[1] != "T"]
     ctx.ob("R-ORDER", "zero-page-gets-child-page", stp == ["objectid"], "a zero-page parent takes the page found among its descendants", rf.where(), what="a zero-page parent no longer takes the first descendant page")
 
